@@ -30,7 +30,7 @@ From Coq Require Import List Arith Bool.
 From AV Require Import Base.Util Spec.Lang Spec.FA Spec.DictOrder Model.DFAOps Model.Construct Model.Validate.
 Import ListNotations.
 
-Definition wrow := list (nat * word).                  (* Dict[str, str]: symbol -> state *)
+Notation wrow := (list (nat * word)). (* Dict[str, str]: symbol -> state *)
 Definition sigT := (bool * wrow)%type.                 (* SignatureT, line 2369 *)
 
 (* ---- dictionaries and sets keyed by words ---- *)
